@@ -328,15 +328,6 @@ theorem rkeep_writeSignal (S : Strs) (cfg : Cfg) (s : State) (b : Nat) : RKeep s
     · refine RKeep.trans ?_ (rkeep_of_eq (s.updBackend b _) _ rfl rfl)
       exact rkeep_updBackend s b _ (fun _ => rfl)
 
-theorem rkeep_runTasks (S : Strs) (cfg : Cfg) (s : State) : RKeep s (runTasks S cfg s) := by
-  unfold runTasks
-  have : ∀ (ts : List Nat) (s0 : State), RKeep s0 (ts.foldl (writeSignal S cfg) s0) := by
-    intro ts
-    induction ts with
-    | nil => intro s0; exact RKeep.refl s0
-    | cons t ts ih => intro s0; exact RKeep.trans (rkeep_writeSignal S cfg s0 t) (ih _)
-  exact RKeep.trans (this s.tasks s) (rkeep_of_eq _ _ rfl rfl)
-
 theorem rkeep_resolve (T : Tables) (S : Strs) (cfg : Cfg) (ty : Nat) (s : State) (vs : List (Nat × Bytes)) (acc : List (Nat × Nat)) :
     RKeep s (resolve T S cfg ty s vs acc).1 := by
   induction vs generalizing s acc with
@@ -749,6 +740,20 @@ theorem rkeep_backendClose (S : Strs) (s : State) (b : Nat) : RKeep s (backendCl
       rw [failFrags_eq]
       exact rkeep_foldl_cstep S _ s
 
+theorem rkeep_runTasks (S : Strs) (cfg : Cfg) (s : State) : RKeep s (runTasks S cfg s) := by
+  unfold runTasks
+  have : ∀ (ts : List Task) (s0 : State), RKeep s0 (ts.foldl (runTask S cfg (backendClose S)) s0) := by
+    intro ts
+    induction ts with
+    | nil => intro s0; exact RKeep.refl s0
+    | cons t ts ih =>
+      intro s0
+      refine RKeep.trans ?_ (ih _)
+      cases t with
+      | write b => exact rkeep_writeSignal S cfg s0 b
+      | close b => exact rkeep_backendClose S s0 b
+  exact RKeep.trans (this s.tasks s) (rkeep_of_eq _ _ rfl rfl)
+
 theorem rkeep_expire (S : Strs) (s : State) : RKeep s (expire S s) := by
   unfold expire
   dsimp only
@@ -792,6 +797,7 @@ theorem rinv_step (T : Tables) (S : Strs) (cfg : Cfg) (slotFn : Bytes → Nat) (
     | backendBytes b chunk => exact rinv_backendBytes T S cfg slotFn s b chunk h
     | backendClose b => exact rinv_keep S _ _ (rkeep_backendClose S s b) h
     | expire => exact rinv_keep S _ _ (rkeep_expire S s) h
+    | poolRemove p => exact rinv_keep S _ _ (rkeep_of_eq _ _ (same_poolRemove s p).2 (bsame_poolRemove s p)) h
 
 theorem rinv_run (T : Tables) (S : Strs) (cfg : Cfg) (slotFn : Bytes → Nat) (es : List Event) (s : State) (h : RInv S s) :
     RInv S (run T S cfg slotFn s es) := by
